@@ -635,14 +635,24 @@ theorem top_budget_le_W (cx : Cx) {m s : Nat} (h : m + s ≤ cx.N) : m * m + (s 
   unfold Cx.W
   omega
 
+/-- the top-level comparison starts with an empty memo of (selection set, fragment) comparisons -/
 theorem findConflictsWithinSelectionSet_spec {cx : Cx} (hcx : CxOk cx) {n : Nat} {fc : FC} (hfc : FCOk cx n fc)
     (parent : Option Definition) (sels : Selections) (hsels : ∀ x ∈ allFields sels, x ∈ cx.U)
-    (hid : selId sels ∈ cx.ids) (hN : countNodes sels ≤ cx.N) :
-    Spec cx n (fun _ => True) cx.W (findConflictsWithinSelectionSet cx.env fc parent sels) := by
-  intro st hP _ hn
+    (hid : selId sels ∈ cx.ids) (hN : countNodes sels ≤ cx.N) (st : OSt) (hP : PSym st.pairs)
+    (hn : cx.W + cx.W * cx.phi { st with seen := [] } < n) :
+    ∃ r, findConflictsWithinSelectionSet cx.env fc parent sels st = some r ∧ PSym r.1.pairs ∧ PLe st.pairs r.1.pairs ∧
+      r.1.steps + cx.W * cx.phi r.1 ≤ st.steps + cx.W * cx.phi { st with seen := [] } + cx.W := by
   unfold findConflictsWithinSelectionSet
   split
-  · exact ⟨(st, []), rfl, AdvS_refl hP, Nat.le_add_right _ _⟩
+  · refine ⟨(st, []), rfl, hP, PLe_refl _, ?_⟩
+    have : cx.phi st ≤ cx.phi { st with seen := [] } := by
+      unfold Cx.phi
+      have := unSeen_mono cx.ids cx.env.d (seen := []) (seen' := st.seen) (fun _ h => by cases h)
+      simp only
+      omega
+    have := Nat.mul_le_mul_left cx.W this
+    simp only
+    omega
   · simp only
     have hsz := getFields_size cx.env.s cx.env.l parent sels
     generalize hAdef : getFieldsAndFragmentNames cx.env.s cx.env.l parent sels = A at hsz ⊢
@@ -650,10 +660,12 @@ theorem findConflictsWithinSelectionSet_spec {cx : Cx} (hcx : CxOk cx) {n : Nat}
       subst hAdef
       exact ⟨goodMap_collect _ _ _ sels hsels, hid, by omega⟩
     have hW := top_budget_le_W cx (m := mapSize A.1.map) (s := A.2.length) (by omega)
-    obtain ⟨⟨st1, c1⟩, h1, a1, k1, n1⟩ := (within_spec hfc A.1.map gA.map).step hP trivial hn (by omega)
+    have hP0 : PSym ({ st with seen := [] } : OSt).pairs := hP
+    obtain ⟨⟨st1, c1⟩, h1, a1, k1, n1⟩ := (within_spec hfc A.1.map gA.map).step (b := cx.W) hP0 trivial hn (by omega)
     obtain ⟨⟨st2, c2⟩, h2, a2, k2⟩ := withinLoop_spec hcx hfc gA A.2 st1 a1.1 trivial (n1 _ (by omega))
-    refine ⟨(st2, c1 ++ c2), by simp only [h1, h2], AdvS_trans a1 a2, ?_⟩
-    simp only at k1 k2 ⊢
+    have a12 := AdvS_trans a1 a2
+    refine ⟨(st2, c1 ++ c2), by simp only [h1, h2], a12.1, a12.2.1, ?_⟩
+    simp only [Cx.cost] at k1 k2 ⊢
     omega
 
 /- ---------- one observer call ---------- -/
@@ -690,26 +702,26 @@ theorem overlapCx_phi_le (s : SV) (d : QueryDoc) (l : Links) (sels : Selections)
   omega
 
 /-- One observer call from a state whose fragment-pair memo is symmetric: it returns (the fuel is
-    not exhausted), both memos have only advanced, and it took at most `overlapStepBound d sels`
-    comparison steps — whatever the memos contained before. -/
+    not exhausted), the fragment-pair memo has only advanced and is symmetric again, and it took at
+    most `overlapStepBound d sels` comparison steps — whatever the memos contained before. -/
 theorem overlapRun_ok (s : SV) (d : QueryDoc) (l : Links) (parent : Option Definition) (sels : Selections)
     (st : OSt) (hP : PSym st.pairs) :
-    ∃ r, overlapRun s d l parent sels st = some r ∧ AdvS st r.1 ∧ r.1.steps ≤ st.steps + overlapStepBound d sels := by
+    ∃ r, overlapRun s d l parent sels st = some r ∧ PSym r.1.pairs ∧ PLe st.pairs r.1.pairs ∧
+      r.1.steps ≤ st.steps + overlapStepBound d sels := by
   have hcx := overlapCx_ok s d l sels
-  have hphi := overlapCx_phi_le s d l sels st
-  have hmul : expansionCost d sels * (overlapCx s d l sels).phi st ≤ expansionCost d sels * memoKeyCount d sels :=
-    Nat.mul_le_mul_left _ hphi
+  have hphi := overlapCx_phi_le s d l sels { st with seen := [] }
+  have hmul : expansionCost d sels * (overlapCx s d l sels).phi { st with seen := [] } ≤
+      expansionCost d sels * memoKeyCount d sels := Nat.mul_le_mul_left _ hphi
   have hbound : overlapStepBound d sels = expansionCost d sels * memoKeyCount d sels + expansionCost d sels := by
     unfold overlapStepBound
     rw [Nat.mul_add, Nat.mul_one]
-  obtain ⟨r, hr, ha, hc⟩ := findConflictsWithinSelectionSet_spec (cx := overlapCx s d l sels) hcx
+  obtain ⟨r, hr, hp, hle, hc⟩ := findConflictsWithinSelectionSet_spec (cx := overlapCx s d l sels) hcx
     (fcLevel_spec hcx (overlapFuel d sels)) parent sels
     (fun x hx => by simp only [overlapCx, univOf, List.mem_append]; exact Or.inl hx)
     (List.mem_cons_self ..) (by simp only [overlapCx, reachableNodeCount]; omega)
-    st hP trivial (by rw [overlapCx_W]; unfold overlapFuel; omega)
-  refine ⟨r, hr, ha, ?_⟩
+    st hP (by rw [overlapCx_W]; unfold overlapFuel; omega)
+  refine ⟨r, hr, hp, hle, ?_⟩
   rw [overlapCx_W] at hc
-  simp only [Cx.cost, overlapCx_W] at hc
   omega
 
 end Gql.Validate
